@@ -100,9 +100,18 @@ def seed_type0() -> Tuple[Doc, Dict[str, Any]]:
                     "FontDescriptor": fd, "DW": 1000, "DW2": [880, -1000], "W2": [1, [-900, 500, 880], 10, 20, -800, 400, 800]})
     f3 = doc.add({"Type": N("Font"), "Subtype": N("Type0"), "BaseFont": N("SeedV"), "Encoding": N("Identity-V"),
                   "DescendantFonts": [cid3]})
+    from vf.gen.ttf07 import build_ttf
+
+    ttf = build_ttf({"subtables": [{"pid": 3, "eid": 1, "fmt": 4, "segs": [{"s": 0x41, "e": 0x5A, "delta": -0x40}, {"s": 0x3042, "e": 0x3044, "delta": (30 - 0x3042) & 0xFFFF}]},
+                                   {"pid": 1, "eid": 0, "fmt": 0, "gids": [0] * 256}], "extra_tables": ["head", "maxp"]})
+    fd4 = doc.add({"Type": N("FontDescriptor"), "FontName": N("SeedTTF"), "Flags": 4, "FontBBox": [0, -200, 1000, 800], "ItalicAngle": 0, "Ascent": 800,
+                   "Descent": -200, "CapHeight": 700, "StemV": 80, "FontFile2": doc.add(Stream({"Length1": len(ttf)}, ttf))})
+    cid4 = doc.add({"Type": N("Font"), "Subtype": N("CIDFontType2"), "BaseFont": N("SeedTTF"),
+                    "CIDSystemInfo": {"Registry": b"Adobe", "Ordering": b"Identity", "Supplement": 0}, "FontDescriptor": fd4, "DW": 800})
+    f4 = doc.add({"Type": N("Font"), "Subtype": N("Type0"), "BaseFont": N("SeedTTF"), "Encoding": N("Identity-H"), "DescendantFonts": [cid4]})
     c = doc.add(Stream({}, b"BT /F1 12 Tf 20 260 Td <000100020003> Tj [<0004> 50 <0031>] TJ /F2 12 Tf 0 -20 Td <82A082A2> Tj "
-                           b"/F3 12 Tf 200 -10 Td <00010002000B> Tj ET"))
-    return _finish(doc, [{"Resources": {"Font": {"F1": f1, "F2": f2, "F3": f3}}, "Contents": c}]), {}
+                           b"/F3 12 Tf 200 -10 Td <00010002000B> Tj /F4 10 Tf -100 -30 Td <00010002001E> Tj ET"))
+    return _finish(doc, [{"Resources": {"Font": {"F1": f1, "F2": f2, "F3": f3, "F4": f4}}, "Contents": c}]), {}
 
 
 def seed_type3() -> Tuple[Doc, Dict[str, Any]]:
@@ -239,7 +248,13 @@ def seed_filters() -> Tuple[Doc, Dict[str, Any]]:
     t3 = t3 + b" " * (-len(t3) % 8)
     c3 = doc.add(Stream({"Filter": N("LZWDecode"), "DecodeParms": {"Predictor": 2, "Columns": 8, "Colors": 1, "BitsPerComponent": 8, "EarlyChange": 1}},
                         lzw_encode(tiff2_encode(t3, 1, 8, 8))))
-    return _finish(doc, [{"Resources": {"Font": {"F1": f1}}, "Contents": [c1, c2, c3]}]), {}
+    # PNG predictor over several colour components, the first row already filtered with Paeth / Average
+    from vf.ref.filters import png_encode
+    t4 = b"BT /F1 10 Tf 20 190 Td (png predictor rgb) Tj ET "
+    t4 = t4 + b" " * (-len(t4) % 12)
+    c4 = doc.add(Stream({"Filter": N("Fl"), "DecodeParms": {"Predictor": 15, "Columns": 4, "Colors": 3, "BitsPerComponent": 8}},
+                        zlib.compress(png_encode(t4, 3, 4, 8, [[4, 3, 1, 2, 0][i % 5] for i in range(len(t4) // 12)]))))
+    return _finish(doc, [{"Resources": {"Font": {"F1": f1}}, "Contents": [c1, c2, c3, c4]}]), {}
 
 
 def seed_ccitt() -> Tuple[Doc, Dict[str, Any]]:
